@@ -8,7 +8,7 @@ use crate::rng::Rng;
 use crate::util::{catch, hex, par_items};
 use crate::{obj, Ctx};
 use emulator_2a_lib::machine::verif::{self, EdgeEvent, EdgeKind};
-use emulator_2a_lib::machine::{Machine, State, StepMode};
+use emulator_2a_lib::machine::{Machine, MicroprogramRam, State, StepMode, Word};
 
 pub fn meta() -> Meta {
     Meta {
@@ -21,6 +21,14 @@ pub fn meta() -> Meta {
 }
 
 type V = (String, String);
+
+/// A word that fetches a FIRST opcode byte: it loads the instruction register (MAC0 and MAC2
+/// without MAC1) and decodes the loaded byte as a first byte (NA4 clear). This is the functional
+/// meaning of "instruction boundary"; the MAC3 marker read by is_instruction_done() must agree.
+fn is_first_fetch(addr: usize) -> bool {
+    let w = MicroprogramRam::CONTENT[addr];
+    w.contains(Word::MAC0) && w.contains(Word::MAC2) && !w.contains(Word::MAC1) && !w.contains(Word::NA4)
+}
 
 fn hang_class(m: &Machine) -> String {
     let s = m.verif_snapshot();
@@ -36,7 +44,10 @@ fn hang_class(m: &Machine) -> String {
 fn check_step(m: &Machine, rep: &mut Report) -> Option<V> {
     let snap = m.verif_snapshot();
     let halted = m.state() != State::Running;
-    let d0 = m.is_instruction_done();
+    let d0 = is_first_fetch(snap.micro_address);
+    if d0 != m.is_instruction_done() {
+        return Some(("C11:boundary-marker-disagrees".into(), format!("micro-address {:#05x}: is_instruction_done() = {} but the word {} an opcode fetch", snap.micro_address, m.is_instruction_done(), if d0 { "is" } else { "is not" })));
+    }
     let mut a = m.clone();
     a.set_step_mode(StepMode::Assembly);
     let mut stuck_probe = m.clone();
@@ -76,10 +87,11 @@ fn check_step(m: &Machine, rep: &mut Report) -> Option<V> {
         }
         let mut seen_not_done = !d0;
         for (i, e) in log.iter().enumerate() {
-            if !e.done_after {
+            let fetch_after = is_first_fetch(e.micro_address_after);
+            if !fetch_after {
                 seen_not_done = true;
             }
-            let terminal = e.state_after != State::Running || (seen_not_done && e.done_after);
+            let terminal = e.state_after != State::Running || (seen_not_done && fetch_after);
             let last = i + 1 == log.len();
             if terminal && !last {
                 return Some(("C11:step-runs-past-boundary".into(), format!("the step continued for {} more edges after reaching a boundary/halt at edge {}", log.len() - i - 1, i + 1)));
